@@ -4,6 +4,7 @@ import FxVerif.Proofs.C15Queue
 import FxVerif.Proofs.C15Tally
 import FxVerif.Proofs.C15Run
 import FxVerif.Proofs.C15Step
+import FxVerif.Proofs.C15Staking
 /-!
 # C15 — governance deposits are conserved and proposals follow their message-type rules
 
@@ -1109,6 +1110,61 @@ theorem deposit_period_ends_exactly_at_deposit_end (ops : List Op) (dt : Nat) (s
   rw [← hrun] at this
   exact (this (by simp [isOpenId, hnone])).1
 
+/-! ## round 3: the staking numbers of a block are STATE of a small staking model, not an input
+
+`wstep` (`Model/C15Staking.lean`) runs the gov model next to a staking state — genesis validators with their delegations,
+`MsgDelegate` (shares issued at the validator's exchange rate), `Keeper.Slash` at the current height (tokens burnt, shares
+kept) — and hands every end-blocker the numbers of that state (`viewOf`).  The hypotheses `stakingOk` and "delegations to a
+validator add up to at most its shares", which the round-2 theorems had to assume about the block input, are invariants here. -/
+
+/-- the gov component of the combined machine is a state of the gov machine: every theorem about `run init ops` above
+holds for it -/
+theorem world_gov_is_reachable (ops : List WOp) : ∃ gops, (wrun winit ops).gov = run init gops :=
+  wrun_gov ops winit ⟨[], rfl⟩
+
+/-- **after every history of gov operations, delegations and slashes** every bonded validator has delegator shares … -/
+theorem staking_numbers_always_ok (ops : List WOp) : stakingOk (viewOf (wrun winit ops).stk) := by
+  have h := wrun_sok ops winit (fun v hv => by simp [winit] at hv)
+  intro v hv
+  exact h v (List.mem_filter.mp hv).1
+
+/-- … no operator occurs twice and the recorded delegations to a validator never exceed its delegator shares -/
+theorem delegations_within_shares (ops : List WOp) :
+    ∀ v ∈ (viewOf (wrun winit ops).stk).vals, delSum (viewOf (wrun winit ops).stk).dels v.op ≤ v.shares := by
+  have h := (wrun_dok ops winit ⟨rfl, fun v hv => by simp [winit] at hv⟩).within
+  intro v hv
+  exact h v (List.mem_filter.mp hv).1
+
+/-- **the end-blocker never halts, with no assumption left about the staking numbers**: after every history of the
+combined machine a block answers `ok` (the numbers written on the op are ignored — the tallies read the modelled state) -/
+theorem no_halt_closed (ops : List WOp) (dt : Nat) (stk : Staking) :
+    (wstep (wrun winit ops) (.gov (.endBlock dt stk))).2 = "ok" := by
+  obtain ⟨gops, hg⟩ := world_gov_is_reachable ops
+  have := no_halt gops dt (viewOf (wrun winit ops).stk) (staking_numbers_always_ok ops)
+  simp only [wstep, hg]
+  exact this
+
+theorem sumNat_map_shares : ∀ ds : List Del, sumNat (ds.map (·.shares)) = sumShares ds := by
+  intro ds
+  induction ds with
+  | nil => rfl
+  | cons d r ih => simp only [List.map_cons, sumNat, sumShares, ih]
+
+/-- **no stake is counted for more than it is worth, closed**: for every validator of every reachable staking state, the
+voting powers `Tally` gives to ALL recorded delegations to it plus the power it leaves to the validator itself exceed its
+bonded tokens by at most one unit of 10^-18 per term -/
+theorem tally_power_bounded_closed (ops : List WOp) (v : Val) (hv : v ∈ (viewOf (wrun winit ops).stk).vals) :
+    let ds := ((viewOf (wrun winit ops).stk).dels.filter (fun d => d.val == v.op)).map (·.shares)
+    ∃ pv, valPower v (sumNat ds) = some pv ∧
+      sumNat (ds.map (fun d => quoVal (d * v.bonded) v.shares)) + pv ≤ DEC * v.bonded + ds.length + 1 := by
+  intro ds
+  have hS := staking_numbers_always_ok ops v hv
+  have hsum : sumNat ds ≤ v.shares := by
+    have := delegations_within_shares ops v hv
+    simpa [ds, sumNat_map_shares, delSum] using this
+  obtain ⟨pv, h1, _, h3⟩ := tally_power_bounded_by_stake v hS ds hsum
+  exact ⟨pv, h1, h3⟩
+
 /-! ## non-vacuity -/
 
 def egf : Ty := egfUrl.toList
@@ -1187,5 +1243,28 @@ example : (run init (demoOps.take 14)).time = 50 ∧
     ((run init (demoOps.take 14)).props.map (fun p => (p.id, p.status, p.depositEnd, p.votingEnd, p.expedited))) =
       [(1, .voting, 100, 30, false), (2, .deposit, 100, 0, false), (3, .voting, 100, 50, true), (4, .deposit, 100, 0, false)] := by
   decide
+
+/-! the combined machine: three genesis validators, a delegation at a slashed validator's exchange rate, blocks -/
+def demoGenesis : StakingSt :=
+  { vals := [⟨100, 100, 100 * DEC⟩, ⟨101, 100, 100 * DEC⟩, ⟨102, 100, 100 * DEC⟩],
+    dels := [⟨100, 100, 100 * DEC⟩, ⟨101, 101, 100 * DEC⟩, ⟨102, 102, 100 * DEC⟩], reduction := 10 }
+def demoWOps : List WOp :=
+  [ .genesis demoGenesis, .gov (.mint 0 100000), .slash 100 500000000000000000,
+    .delegate 0 100 50,            -- validator 100 has 50 tokens for 100 shares: 50 tokens buy 100 shares
+    .gov (.submit 0 [toggle] 1000 false), .gov (.vote 1 0 [(.yes, DEC)]), .gov (.vote 1 101 [(.no, DEC)]),
+    .gov (.endBlock 100 {}), .gov (.endBlock 1 {}) ]
+example : genesisOk demoGenesis = true := by decide
+example : (viewOf (wrun winit demoWOps).stk).vals = [⟨100, 100, 200 * DEC⟩, ⟨101, 100, 100 * DEC⟩, ⟨102, 100, 100 * DEC⟩] ∧
+    (viewOf (wrun winit demoWOps).stk).totalBonded = 300 ∧
+    (viewOf (wrun winit demoWOps).stk).dels.map (fun d => (d.who, d.val, d.shares / DEC)) = [(100, 100, 100), (101, 101, 100), (102, 102, 100), (0, 100, 100)] := by
+  decide
+-- account 0 holds half of validator 100's shares = 50 tokens, validator 101 its 100: turnout 150/300, yes 50 : no 100
+example : (wrun winit demoWOps).gov.props.map (fun p => (p.status, p.tallyRes)) = [(.rejected, (50, 0, 100, 0))] := by decide
+example : (wstep winit (.genesis { vals := [⟨100, 5, 0⟩] })).2 = "err:genesis" := by decide
+-- a validator slashed below one unit of consensus power leaves the bonded set at the end of the block, and comes back
+-- once a delegation lifts it again
+example : (viewOf (wrun winit [.genesis demoGenesis, .slash 101 950000000000000000, .gov (.endBlock 1 {})]).stk).vals.map (·.op) = [100, 102] ∧
+    (viewOf (wrun winit [.genesis demoGenesis, .gov (.mint 0 100), .slash 101 950000000000000000, .gov (.endBlock 1 {}), .delegate 0 101 5,
+      .gov (.endBlock 1 {})]).stk).vals.map (fun v => (v.op, v.bonded)) = [(100, 100), (101, 10), (102, 100)] := by decide
 
 end FxVerif.Props.C15
